@@ -77,6 +77,12 @@ def render_files(case: dict, status=None) -> dict:
             files[name] = '\n'.join(rendered[at:at + n]) + '\n'
             rendered = rendered[:at] + ['including ' + name] + rendered[at + n:]
         chunks.extend(rendered)
+        if ph in (layout.get('first_include') or []) and chunks:
+            # the very first element of the section is an `including` directive (directly after the header), and further
+            # elements of the section follow it
+            name, body = first_include_file(ph)
+            files[name] = body
+            chunks = ['including ' + name] + chunks
         if ph in split and len(chunks) >= 2:
             k = len(chunks) // 2
             first, second = chunks[:k], chunks[k:]
@@ -90,6 +96,15 @@ def render_files(case: dict, status=None) -> dict:
             tails.extend(second)
     files['t.case'] = '\n'.join(heads + tails) + '\n'
     return files
+
+
+def first_include_file(ph: str):
+    """(name, contents) of the harmless file a section may start by including: in [conf] a status that the case's own
+    `status = ...` (which follows the directive) replaces, elsewhere the definition of a symbol nobody uses."""
+    if ph == 'conf':
+        return 'pre-conf.xly', 'status = PASS\n'
+    return 'pre-%s.xly' % ph, 'def string PRE_%s = "defined in a file that the section starts by including"\n' \
+        % ph.replace('-', '_').upper()
 
 
 def write_case(world, case: dict, status=None, tail: str = '') -> str:
@@ -115,6 +130,9 @@ def random_layout(g) -> dict:
         layout['include'] = inc
     if g.random() < 0.2:
         layout['act_first_without_header'] = True
+    fi = [ph for ph in INSTR_PHASES if g.random() < 0.12]
+    if fi:
+        layout['first_include'] = fi
     return layout
 
 
